@@ -162,16 +162,27 @@ func main() {
 		seed = 1
 	}
 
-	var defs map[string]checkDef
-	b, err := os.ReadFile(filepath.Join(root, "checks", "checks.json"))
-	if err != nil {
-		die(2, "checks.json: %v", err)
+	// every check package declares itself in checks/<dir>/check.json
+	var def checkDef
+	found := false
+	cfgs, _ := filepath.Glob(filepath.Join(root, "checks", "*", "check.json"))
+	for _, c := range cfgs {
+		b, err := os.ReadFile(c)
+		if err != nil {
+			die(2, "%s: %v", c, err)
+		}
+		var d struct {
+			ID string `json:"id"`
+			checkDef
+		}
+		if err := json.Unmarshal(b, &d); err != nil {
+			die(2, "%s: %v", c, err)
+		}
+		if d.ID == id {
+			def, found = d.checkDef, true
+		}
 	}
-	if err := json.Unmarshal(b, &defs); err != nil {
-		die(2, "checks.json: %v", err)
-	}
-	def, ok := defs[id]
-	if !ok {
+	if !found {
 		die(2, "unknown property %s", id)
 	}
 	var known []finding
@@ -386,6 +397,12 @@ func runStage(id string, st stage, tier string, seed int64, replay, work, bin, r
 	}
 	if st.NoCgo {
 		name += "-nocgo"
+	}
+	// VERIF_MODFILE: calibration only — build against a scratch copy of /repo
+	// (a go.mod whose replace points there). Never set by registered commands.
+	if mf := os.Getenv("VERIF_MODFILE"); mf != "" {
+		buildArgs = append(buildArgs, "-modfile="+mf)
+		name += "-" + strings.ReplaceAll(strings.Trim(filepath.Dir(mf), "/"), "/", "_")
 	}
 	binPath := filepath.Join(bin, name+".test")
 	buildArgs = append(buildArgs, "-o", binPath, st.Pkg)
